@@ -289,6 +289,36 @@ def h_fast_vs_general(ctx, d, kinds):
     ctx.prove(f"C12.fast_eq_general.{d}d", EQ(fast, gen), info={"kinds": kinds}, replay=(replay_fast_vs_general, scen))
 
 
+def replay_integer_endpoints(sc):
+    """real HEM margins + Clayton: a rectangle given with python-int end points has the mass of the same rectangle given with floats"""
+    out = []
+    for d, (a, b) in ((2, ([1, 2], [2, 3])), (2, ([-2, 1], [-1, 2])), (3, ([1, -3, 2], [2, -1, 4]))):
+        mdl = _finite_levycopula(d)
+        want = float(_finite_levycopula(d).mass(tuple(float(x) for x in a), tuple(float(x) for x in b)))  # another object: mass() is memoised and 1 == 1.0
+        try:
+            got = float(mdl.mass(tuple(a), tuple(b)))
+        except Exception as e:
+            out.append(f"mass({a}, {b}) with python ints raises {type(e).__name__}: {e} (with floats: {want!r})")
+            continue
+        if abs(got - want) > 1e-12 * max(1.0, abs(want)):
+            out.append(f"mass({a}, {b}) = {got!r} with python ints, {want!r} with floats")
+    return bool(out), "; ".join(out[:2]) if out else "integer end points give the mass of the float rectangle"
+
+
+def h_integer_endpoints(ctx, d):
+    """rectangles whose end points are given as python ints (the abstract margins are evaluated at the same points either way)"""
+    mdl, models, cop = make_model(ctx, d)
+    a, b = ([1, -2], [2, -1]) if d == 2 else ([1, -2, 3], [2, -1, 5])
+    rp = (replay_integer_endpoints, lambda m: {})
+    try:
+        got = mdl.mass(tuple(a), tuple(b))  # before the float version: mass() is memoised and the keys 1 and 1.0 coincide
+    except TypeError as e:
+        ctx.prove(f"C12.integer_end_points_are_numbers_too.{d}d", False, info={"raised": str(e)[:100]}, replay=rp)
+        return
+    want = mdl.mass(tuple(float(x) + 0.0 for x in a), tuple(float(x) for x in b))
+    ctx.prove(f"C12.integer_end_points_are_numbers_too.{d}d", EQ(got, want), info={"a": a, "b": b}, replay=rp)
+
+
 def _tail(models, i, x):
     """oracle: U_i(x) = sign(x) nu_i(I(x)) as a term"""
     nu = models[i].levy_triplet.nu
@@ -599,6 +629,8 @@ def harnesses(tier):
         hs.append(Harness(f"nonneg3d.{'.'.join(kinds)}", h_nonneg, {"d": 3, "kinds": kinds}, max_paths=500))
     for kinds in itertools.product(("neg", "pos"), repeat=3):
         hs.append(Harness(f"nonneg3d.{'.'.join(kinds)}", h_nonneg, {"d": 3, "kinds": kinds}, max_paths=500))
+    for d in (2, 3):
+        hs.append(Harness(f"intends.{d}", h_integer_endpoints, {"d": d}, max_paths=200))
     for order in ((0, 1), (1, 0, 1), (0, 0, 1)):
         hs.append(Harness(f"inverse_tail.2.{''.join(map(str, order))}", h_inverse_tail, {"d": 2, "order": order}, max_paths=2000))
     hs.append(Harness("inverse_tail.3.0212", h_inverse_tail, {"d": 3, "order": (0, 2, 1, 2)}, max_paths=4000))
